@@ -498,7 +498,7 @@ func parseContractFile(path, pkgPath string) ([]*Contract, error) {
 			cl.Expr = e
 		case "forall", "let":
 			cl.Name = cl.Text
-		case "ghost", "effects", "arity", "charges", "bounded", "reads", "allocs":
+		case "ghost", "effects", "arity", "charges", "bounded", "reads", "allocs", "conversions":
 			// handled by their consumers
 		default:
 			return nil, fail(fmt.Errorf("unknown clause %q", cl.Kind))
